@@ -22,6 +22,7 @@ def check(ctx):
                     and n.func.attr in ('delete', 'create', 'describe', 'write', 'get'))
     paths = en.paths(pr.node.body)
     n = 0
+    fallback_seen = False
     for p in paths:
         nodes = list(path_nodes(p))
         g = {u(t): pol for t, pol in [norm_compare(t, pol) for t, pol in p.guards()]}
@@ -78,6 +79,7 @@ def check(ctx):
                                match_expr("__S.get('primaryKey') or []", x.value) is not None)]
                     run.check(len(fb) == 1, 'R23', pr.where, pr.qualname, "update keys default to the primary key",
                               'without explicit update_keys the primary key is not used')
+                    fallback_seen = fallback_seen or len(fb) == 1
         else:
             run.fail('R23', pr.where, pr.qualname, 'storage.write on the mapped path', 'rows of a mapped resource are not written')
         # the returned stream is map(get_output_row, storage.write(...))
@@ -100,6 +102,8 @@ def check(ctx):
         run.check(ok, 'R23', pr.where, pr.qualname, 'return map(self.get_output_row, storage.write(...))',
                   'rows do not continue downstream from the writer')
     run.floor('R23', n, 4, 'mode paths')
+    run.check(fallback_seen, 'R23', pr.where, pr.qualname, 'a path on which missing update_keys fall back to the primary key',
+              'without explicit update_keys the primary key is not used (update mode would match rows on nothing)')
     body = u(pr.node)
     run.check(has_stmt("mode = _c.get('mode', 'rewrite')", pr.node), 'R23', pr.where, pr.qualname, "default mode rewrite",
               'the default mode is not rewrite')
